@@ -408,6 +408,9 @@ pub fn run(ctx: &Ctx) {
         chains.push((0..len).fold(a(), |acc, _| Expr::func("f", acc)));
         chains.push((0..len).fold(a(), |acc, _| Expr::Vec(vec![acc])));
         chains.push((0..len).fold(a(), |acc, _| Expr::iif(Expr::value(true), Expr::value(1), acc)));
+        // more than a handful of entries, some of which hold multi-line strings (also nested one level down)
+        chains.push(Expr::Vec((0..len.min(40)).map(|i| if i % 5 == 1 { Expr::value("line1\nline2\n  indented\r\nend".to_string()) } else { Expr::value(i as i128) }).collect()));
+        chains.push(Expr::Map((0..len.min(40)).map(|i| (format!("k{i}"), if i % 4 == 2 { Expr::Vec(vec![Expr::value("a\n b".to_string())]) } else { Expr::reff("a") })).collect()));
         // wide rather than deep: lists / maps of that many entries, one string of that many characters, a call on a wide list
         chains.push(Expr::Vec((0..len).map(|i| Expr::value(i as i128)).collect()));
         chains.push(Expr::Map((0..len).map(|i| (format!("k{i}"), Expr::value(format!("v{i}")))).collect()));
